@@ -256,6 +256,7 @@ def batches(tier, seed):
     st = nt // 12 + 1
     b += [('batch_trees', [lo, lo + st, full]) for lo in range(0, nt, st)]
     b.append(('batch_dups', []))
+    b += [('batch_impl_pairs', [lo, lo + 324]) for lo in range(0, 1296, 324)]
     return b
 
 
@@ -283,6 +284,10 @@ def replay_dups(k):
         return ['%s | constraints %r' % (b[:400], rt.DUP_CTC_SETS[k]) for b in file_roundtrip(m)]
     except Exception as exc:
         return ['round trip raises %s: %s (constraints %r)' % (type(exc).__name__, exc, rt.DUP_CTC_SETS[k])]
+
+
+def batch_impl_pairs(lo, hi):
+    return rt.impl_pairs_batch(__name__, lo, hi, 'constraint-roundtrip')
 
 
 def batch_dups():
